@@ -71,12 +71,20 @@ func (b *baseCockpit) add(t *task.Task) {
 
 func (b *baseCockpit) remove(t *task.Task) {
 	b.mu.Lock()
-	defer b.mu.Unlock()
-
+	var found bool
 	for k, v := range b.tasks {
 		if v == t {
 			b.tasks = append(b.tasks[:k], b.tasks[k+1:]...)
+			found = true
+			break
 		}
+	}
+	// the spinner takes the same lock from its update callback: release it before touching the spinner
+	b.mu.Unlock()
+
+	// a task that was skipped or failed before its output started was never added
+	if !found || b.spinner == nil {
+		return
 	}
 
 	var mark = aurora.Green("✔")
